@@ -723,6 +723,96 @@ func (w *l1world) exec(op *kop, hstats map[string]int) (known string, ok bool) {
 		}
 		hstats["ccommit"]++
 		hstats[fmt.Sprintf("ccommit_muts_%d", min(len(mutsOnly), 8))]++
+	case "cvacuum":
+		// vacuum with crash exploration (C04: "... and vacuum"): the vacuum runs for real; then for
+		// every prefix of its mutation log (commit of the purged tree, retirement of the parent,
+		// deletions of nodes and versions) a copy of the bucket with that prefix applied is recovered
+		// read-only and read-write
+		before := w.s3.snapshot()
+		tbl := vacuumTable()
+		tbl.Tree.Root = db
+		w.s3.resetLog()
+		var err error
+		panicked := catch(func() { err = s3db.Vacuum(ctx, tbl.Name, time.Unix(0, op.before)) })
+		sizeBefore := db.Size()
+		w.hs[op.h] = tbl.Tree.Root
+		if tbl.Tree.Root.Size() < sizeBefore {
+			w.emptied[op.h] = true
+		}
+		if w.hs[op.h] != db {
+			w.opened = append(w.opened, w.hs[op.h])
+		}
+		out.s(";")
+		if panicked {
+			out.s("panic")
+		} else {
+			okerr(out, err)
+		}
+		w.s3.mu.Lock()
+		full := append([]reqRec{}, w.s3.log...)
+		w.s3.mu.Unlock()
+		var mo tw
+		_, retire := w.muts(&mo, "{", "}")
+		w.lastDeleted = strings.Count(mo.String(), " D")
+		out.sb.WriteString(mo.String())
+		var mutsOnly []reqRec
+		for _, r := range full {
+			if r.ok && (r.kind == "P" || r.kind == "D") {
+				mutsOnly = append(mutsOnly, r)
+			}
+		}
+		o.s("cvacuum")
+		o.i(op.h)
+		o.z(op.before)
+		w.names(&o, retire)
+		o.z(op.seed)
+		o.i(len(mutsOnly))
+		for j := 0; j <= len(mutsOnly); j++ {
+			snap := fromSnapshot(before)
+			for _, r := range mutsOnly[:j] {
+				if r.kind == "P" {
+					snap.objs[r.key] = r.val
+				} else {
+					delete(snap.objs, r.key)
+				}
+			}
+			for pass := 0; pass < 2; pass++ {
+				ro := pass == 0
+				s2 := fromSnapshot(snap.snapshot())
+				rand.Seed(op.seed + int64(j))
+				var rdb *kv.DB
+				var rerr error
+				rpanic := catch(func() { rdb, rerr = kv.Open(ctx, s2, w.cfg(), kv.OpenOptions{ReadOnly: ro}, time.Unix(0, baseTime+5)) })
+				out.s("C")
+				if rpanic {
+					out.s("panic")
+				} else if rerr != nil {
+					out.s("err")
+				} else {
+					out.s("ok")
+					if err := w.dump(out, rdb); err != nil {
+						out.s("err")
+					}
+					rdb.Cancel()
+				}
+				var order, rret []string
+				seen := map[string]bool{}
+				for _, r := range s2.takeLog() {
+					cl, nm := classify(r.key)
+					if r.kind == "G" && cl == "c" && !seen[nm] {
+						seen[nm] = true
+						order = append(order, nm)
+					}
+					if r.ok && r.kind == "P" && cl == "m" {
+						rret = append(rret, nm)
+					}
+				}
+				w.names(&o, order)
+				w.names(&o, rret)
+			}
+		}
+		hstats["cvacuum"]++
+		hstats[fmt.Sprintf("cvacuum_muts_%d", min(len(mutsOnly), 8))]++
 	case "vacuum":
 		// s3db.Vacuum on a registered table whose tree is this handle (rows mode only)
 		o.s("vacuum")
@@ -1012,6 +1102,10 @@ func runL1History(g *gen, mode string, nops int, hstats map[string]int, faulty, 
 		if op.kind == "set" && mode == "rows" && op.row.del {
 			delTimes = append(delTimes, op.when+op.row.doff)
 		}
+		if op.kind == "vacuum" && w.crashy {
+			op.kind = "cvacuum"
+			op.seed = g.r.Int63n(1000000)
+		}
 		if op.kind == "rmtomb" && w.crashy {
 			// purging tombstones voids "a successor contains its parents" (documented
 			// precondition of RemoveTombstones); purges are the subject of C09/C10
@@ -1110,10 +1204,10 @@ func runL1History(g *gen, mode string, nops int, hstats map[string]int, faulty, 
 		if kn != "" {
 			known = append(known, kn)
 		}
-		if op.kind == "delhist" || op.kind == "vacuum" {
+		if op.kind == "delhist" || op.kind == "vacuum" || op.kind == "cvacuum" {
 			w.exec(&kop{kind: "walk", before: op.before}, hstats)
 		}
-		if (op.kind == "delhist" || op.kind == "vacuum") && w.lastDeleted > 0 {
+		if (op.kind == "delhist" || op.kind == "vacuum" || op.kind == "cvacuum") && w.lastDeleted > 0 {
 			// other handles may now point at deleted objects (documented effect of
 			// deleting history); the model keeps whole trees in memory, so stop using them
 			live = []int{op.h}
